@@ -101,7 +101,19 @@ def handle (ws : List String) : String :=
         let vecs : Array (V3 Float) := rows.foldl
           (fun (acc : Array (V3 Float)) r => acc.set! r.src.id (unitVecDeg r.ra r.dec))
           (Array.replicate (maxId + 1) { x := 0.0, y := 0.0, z := 0.0 })
-        let link : Src → Src → Bool := fun a b => decide (chord vecs[a.id]! vecs[b.id]! ≤ eps)
+        -- the `≤ eps` test for every pair of ids, evaluated once (the chord is symmetric in IEEE
+        -- arithmetic: `(a - b)² = (b - a)²` exactly), so that BFS and checker only do look-ups
+        let m := maxId + 1
+        let mat : Array Bool := Id.run do
+          let mut t : Array Bool := Array.replicate (m * m) false
+          for i in [0:m] do
+            let u := vecs[i]!
+            for j in [i:m] do
+              let b := decide (chord u vecs[j]! ≤ eps)
+              t := t.set! (i * m + j) b
+              t := t.set! (j * m + i) b
+          return t
+        let link : Src → Src → Bool := fun a b => mat[a.id * m + b.id]!
         match regroupDbscan link (rows.map (·.src)) with
         | some gs => s!"ok {gs.length} | " ++ showGroups gs
         | none => "cert-fail"
